@@ -1630,7 +1630,8 @@ def oracle(case, obs):
                     fails.append(_fail("C07:socket-name-case-shadow" if len(set(lower)) < len(lower)
                                        else "C07:wrong-descriptor-number",
                                        "live spawn %d: %r -> %r, socket has %d" % (n, name, num, sfd)))
-                elif e is None or not e["sock"] or e["ino"] != sino or not e.get("listening") or e.get("name") != saddr:
+                elif e is None or not e["sock"] or e["ino"] != sino or e.get("name") != saddr or \
+                        bool(e.get("listening")) != _listens(case["sockets"][idx[0]]):
                     fails.append(_fail("C07:child-does-not-get-the-startup-socket",
                                        "live spawn %d: fd %s in the child is %r, the daemon's socket is %r"
                                        % (n, num, e, rep["socks"][idx[0]])))
